@@ -387,9 +387,32 @@ def local_defs(fi, name):
     return out
 
 
+def two_armed(defs):
+    """`if C: x = A else: x = B` (the only two bindings of x, each the only statement of its arm) is x = A if C else B"""
+    if len(defs) != 2 or not all(isinstance(x, ast.Assign) and len(x.targets) == 1 and isinstance(x.targets[0], ast.Name) for x in defs):
+        return None
+    from .model import parent
+
+    p0, p1 = parent(defs[0]), parent(defs[1])
+    if p0 is None or p0 is not p1 or not isinstance(p0, ast.If):
+        return None
+    if len(p0.body) == 1 and len(p0.orelse) == 1 and {id(p0.body[0]), id(p0.orelse[0])} == {id(defs[0]), id(defs[1])}:
+        a, b = p0.body[0].value, p0.orelse[0].value
+        test = p0.test
+        if isinstance(test, ast.UnaryOp) and isinstance(test.op, ast.Not):
+            test, a, b = test.operand, b, a
+        ie = ast.IfExp(test=test, body=a, orelse=b)
+        ast.copy_location(ie, p0)
+        ie._parent = p0
+        return ie
+    return None
+
+
 def single_def(fi, name):
     """The unique `name = value` assignment of a local, or None."""
     d = local_defs(fi, name)
+    if len(d) == 2:
+        return two_armed(d)
     if len(d) == 1 and isinstance(d[0], ast.Assign) and len(d[0].targets) == 1 and isinstance(d[0].targets[0], ast.Name):
         return d[0].value
     if len(d) == 1 and isinstance(d[0], ast.AnnAssign) and d[0].value is not None:
@@ -736,6 +759,17 @@ PW_OPS = ("select", "delete", "get", "create", "insert_many", "update", "insert"
 PW_CHAIN = ("where", "order_by", "limit", "get", "count", "execute", "first", "offset", "dicts", "tuples", "iterator", "exists", "scalar", "on_conflict", "on_conflict_replace", "on_conflict_ignore", "returning", "get_or_none")
 
 
+def _conjuncts(args):
+    """where(a & b, c) restricts by a, b and c: peewee's `&` on expressions is AND"""
+    out = []
+    for a in args:
+        if isinstance(a, ast.BinOp) and isinstance(a.op, ast.BitAnd):
+            out += _conjuncts([a.left, a.right])
+        else:
+            out.append(a)
+    return out
+
+
 def _chain_root(call):
     """If `call` is the outermost call of a Model.op(...).x().y() chain, return the list of calls innermost first."""
     calls = []
@@ -782,12 +816,12 @@ def _peewee_chains(prog, mod_name):
             if op not in PW_OPS:
                 raise AnalysisError(f"{fi.loc(call)} {fi.short}: peewee operation {model}.{op} is not modelled")
             if op == "get":
-                ch.wheres += list(first.args)
+                ch.wheres += _conjuncts(first.args)
                 ch.terminal = "get"
             for c in calls[1:]:
                 a = c.func.attr
                 if a == "where":
-                    ch.wheres += list(c.args)
+                    ch.wheres += _conjuncts(c.args)
                 elif a == "order_by":
                     ch.order += list(c.args)
                 elif a == "limit":
